@@ -1562,7 +1562,7 @@ func AggrFunExpr(query *Query, current Map, expr sqlparser.AggrFunc, opts ...Exp
 	if !ok {
 		return nil, INVALID_FUNCTION.Extend(fmt.Sprintf("function %s cannot be found", expr.AggrName()))
 	}
-	if len(query.groupDefinition) != 0 {
+	if _, ok := current["*"]; ok {
 		slice, err := AggrFuncArgReader(query, current, sqlparser.Exprs{Exprs: expr.GetArgs()})
 		if err != nil {
 			return nil, err
@@ -1741,7 +1741,8 @@ func IsSelectAllAggregate(query *Query) bool {
 func ExecSelect(query *Query, current []any) ([]any, error) {
 	copy := make([]any, 0)
 	if IsSelectAllAggregate(query) {
-		rs, err := SelectExpr(query, nil, &query.selectDefinition)
+		// whole-table aggregates cover the rows that passed WHERE
+		rs, err := SelectExpr(query, Map{"*": current}, &query.selectDefinition)
 		if err != nil {
 			return nil, err
 		}
